@@ -2,7 +2,7 @@
 //! configuration to learn the accepted-step grid and the dense solution; pass 2 places requested
 //! times / event roots relative to that grid.
 
-use crate::problems::{base, reflect, Base, Prob};
+use crate::problems::{base, reflect, warp, Base, Prob, Warp};
 use crate::run::{run, Cfg, Run};
 use ivp::prelude::*;
 
@@ -60,8 +60,10 @@ pub struct Scene {
 
 pub fn scenes(backward: bool) -> Vec<Scene> {
     let mut v = vec![];
-    for (b, span) in [(Base::Harmonic(1.5), 2.5), (Base::Logistic(2.0), 2.0)] {
-        let p0 = base(b);
+    // the third scene depends explicitly on the independent variable (a time-warped oscillator): the
+    // abscissae handed to the right-hand side matter, also those of dense-output-only stages
+    for (b, span, w) in [(Base::Harmonic(1.5), 2.5, Warp::Id), (Base::Logistic(2.0), 2.0, Warp::Id), (Base::Harmonic(1.2), 2.2, Warp::Quad)] {
+        let p0 = warp(&base(b), w);
         let (p, x0, xend) = if backward { (reflect(&p0), 0.0, -span) } else { (p0, 0.0, span) };
         v.push(Scene { name: p.name.clone(), prob: p, x0, xend });
     }
